@@ -320,6 +320,7 @@ func checkFailFile(tb tb, failfile string, prop func(*T)) ([]uint64, *testError,
 	}
 	err1 := checkOnce(t1, prop)
 	if err1 == nil {
+		tb.Logf("[rapid] fail file %q no longer fails", failfile)
 		return nil, nil, nil
 	}
 	if err1.isInvalidData() {
